@@ -524,7 +524,9 @@ class SynthObject(gpp.UGenParameter, metaclass=MetaSynthObject):
             for input in self.inputs:
                 if isinstance(input, UGen) and input._descendants:
                     input._descendants.discard(self)
-                    input._optimize_graph()
+                    # Optimizing a previous input may have replaced this one.
+                    if self._synthdef._children[input._synth_index] is input:
+                        input._optimize_graph()
             self._synthdef._remove_ugen(self)
             return True
         return False
